@@ -399,6 +399,30 @@ theorem add_to_record_total (genes : List Gene) (hn : (genes.map (·.name)).Nodu
       ∧ f.iterative = m.isIterative ∧ f.type = m.featureType :=
   report_total genes hn h s hs out ho
 
+/-- 10e. (widens 10d to ANY mixture of strands — the "one strand" hypothesis is discharged)  Every
+    module the loop keeps for a gene only holds components of genes on that gene's strand
+    (merging requires equal strands), so all its domain features have one strand and the
+    `Module` feature constructor's guard is met: the whole `add_to_record` step succeeds for EVERY
+    module `generate_domains` reports, for any genes with distinct names. -/
+theorem add_to_record_total_any_strand (genes : List Gene) (hn : (genes.map (·.name)).Nodup)
+    (h : ∀ g ∈ genes, InputOK g.domains g.name) (out : List GeneResult) (ho : chain genes = .ok out) :
+    ∀ r ∈ out, ∀ m ∈ r.modules, ∃ f, m.report (geneTables genes) r.name = .ok f
+      ∧ f.domains.map (·.locus) = m.components.map (·.locus)
+      ∧ (∀ d ∈ f.domains, d.strand = r.strand)
+      ∧ f.complete = m.isComplete ∧ f.starter = m.isStarterModule ∧ f.final = m.isTerminationModule
+      ∧ f.iterative = m.isIterative ∧ f.type = m.featureType :=
+  report_total_mixed genes hn h out ho
+
+/-- … the model-level fact behind it: in what the loop keeps (before the single-domain filter), every
+    component of a gene's modules comes from a gene on that gene's strand -/
+theorem merged_modules_one_strand (genes : List Gene) (hn : (genes.map (·.name)).Nodup)
+    (h : ∀ g ∈ genes, InputOK g.domains g.name) (R : List GeneResult) (hR : chainGo genes [] false = .ok R) :
+    ∀ r ∈ R, ∀ m ∈ r.modules, ∀ c ∈ m.components, strandOfLocus genes c.locus = r.strand := by
+  obtain ⟨R', hR', _, hs⟩ := chainGo_strand genes hn genes [] false (fun g hg => hg) h
+    (fun r hr => by cases hr) (fun r hr => by cases hr)
+  rw [hR] at hR'; injection hR' with hR'; subst hR'
+  exact hs
+
 /-- 11. `Module.start` / `Module.end` of every module of a gene: neither assertion is reachable, the
     module starts where its first domain starts and ends where its last domain ends — or the one
     before it, when the module has more than one domain and its terminating domain is a product
@@ -620,5 +644,14 @@ example : Spec.moduleEnd [c "PKS_KS" 0, c "PKS_AT" 10, c "ACP" 20, c "Thioestera
     ∧ Spec.moduleEnd [c "ACP" 20, c "Epimerization" 30] = some 35
     ∧ Spec.moduleEnd [c "Thioesterase" 30] = some 35
     ∧ Spec.moduleStart [c "PKS_KS" 7, c "ACP" 20] = some 7 := by decide
+
+
+/-! ### non-vacuity for 10e: a forward and a reverse gene; loci name genes of different strands -/
+def mixedGenes : List Gene := [⟨"a", 1, 0, dupDomains, false, 0, 0⟩, ⟨"b", -1, 0, dupDomains, false, 1, 0⟩]
+example : strandOfLocus mixedGenes "a" = 1 ∧ strandOfLocus mixedGenes "b" = -1
+    ∧ (mixedGenes.map (·.name)).Nodup := by decide
+/-- a feature over domains of both would be refused by the constructor — which is why 10e matters -/
+example : (match ModFeature.construct [⟨"x", "a", 1⟩, ⟨"y", "b", -1⟩] .nrps true false false false with
+           | .error .valueError => true | _ => false) = true := by decide
 
 end ASV.C14
